@@ -438,6 +438,51 @@ def run(prog, rep, tier):
                       "%s: byte 0x%02x is written after the final newline and counted in the returned length; the printers emit buffer[..at], so it is printed after every record" % (ab.path, stores[0][0]),
                       {"stores": stores})
 
+    # ------------------------------------------------------------ R8.7 (lifted from C05 R5.4)
+    R87 = rep.rule("R8.7", "compressed accounting files keep their blocks for the time-ordered walk (lifted from C05 R5.4)")
+    import contextlib as _cl, io as _io
+    import c05 as _c05
+    from common import Report as _Rep
+    _sub = _Rep("C05", "quick", dict(rep.meta))
+    _sub.finish = lambda *a, **k: 0
+    with _cl.redirect_stdout(_io.StringIO()):
+        _c05.run(prog, _sub, "quick")
+    for (rid_, key_, what_, det_) in _sub.violations:
+        if rid_ == "R5.4":
+            rep.violation(R87, key_.split("|", 1)[1], what_)
+    for s_ in _sub.rules.get("R5.4", {}).get("samples", []):
+        rep.examined(R87, str(s_)[:70], sample=s_)
+
+    # ------------------------------------------------------------ R8.6 the worker sends records until the reader is done
+    R86 = rep.rule("R8.6", "the accounting worker's loop ends only when the reader reports Done or an error")
+    wb = prog.body("s4::exec_fixedstructprocessor")
+    pe_calls = [c for c in wb.live_calls() if c.d.endswith("FixedStructReader::process_entry_at")]
+    if len(pe_calls) != 1:
+        raise CheckerError("exec_fixedstructprocessor: %d process_entry_at calls" % len(pe_calls))
+    hs = [h_ for t_, h_ in wb.back_edges() if pe_calls[0].bb in wb.loop_blocks(h_)]
+    if not hs:
+        raise CheckerError("exec_fixedstructprocessor: record loop not found")
+    WL = wb.loop_blocks(min(hs, key=lambda x: len(wb.loop_blocks(x))))
+    bad = []
+    nex = 0
+    for x in sorted(WL):
+        for s_ in wb.succ[x]:
+            if s_ in WL or wb.term(s_)[0] == "unreachable":
+                continue
+            nex += 1
+            okx = False
+            if wb.term(x)[0] == "switch":
+                sd = decide.switch_decisions(wb, x)
+                if sd:
+                    for tgt, d in sd:
+                        if tgt == s_ and d[0] in ("variant", "variant_not") and d[1][0] == "call" and d[1][1] == "process_entry_at":
+                            okx = True
+            if not okx:
+                bad.append((x, wb.blocks[x].get("l")))
+    rep.examined(R86, wb.path + "|loop-exits", sample={"loop_exits": nex, "not_controlled_by_the_reader_result": bad})
+    if bad:
+        rep.violation(R86, wb.path + "|loop-exits", "exec_fixedstructprocessor: the record loop can end (line %s) on a condition other than the reader's Done/Err; records are served in time order, so stopping at the physically last record (or any other early stop) drops the later-timed ones" % bad[0][1])
+
     return rep.finish(
         "Static necessary-condition check of the accounting-record reader: the ordering index cannot lose records with equal times (key "
         "contains the record offset), the index is walked minimum-first in map order removing the served key, the prefilter loop accepts "
